@@ -130,6 +130,8 @@ struct SeqRes {
     order: Vec<(usize, usize)>,
     outs: Vec<Vec<String>>,
     dump: Dump,
+    /// multi-entry calls that failed in this order after they had already changed something
+    partial: Vec<(usize, usize)>,
 }
 
 fn seq_outcomes(setup: &[Op], sig: &[Op], prog: &Prog) -> Vec<SeqRes> {
@@ -140,10 +142,19 @@ fn seq_outcomes(setup: &[Op], sig: &[Op], prog: &Prog) -> Vec<SeqRes> {
         if (0..prog.len()).all(|t| pos[t] == lens[t]) {
             let fs = init.verif_deep_clone();
             let mut outs: Vec<Vec<String>> = prog.iter().map(|p| vec![String::new(); p.len()]).collect();
+            let mut partial = vec![];
             for &(t, i) in order.iter() {
-                outs[t][i] = apply(&fs, &sig[prog[t][i]]).transcript();
+                let op = &sig[prog[t][i]];
+                let before = if crate::engines::space::order_sensitive(op) { Some(fs.verif_dump()) } else { None };
+                let o = apply(&fs, op);
+                if let Some(b) = before {
+                    if !o.ok && fs.verif_dump() != b {
+                        partial.push((t, i));
+                    }
+                }
+                outs[t][i] = o.transcript();
             }
-            res.push(SeqRes { order: order.clone(), outs, dump: fs.verif_dump() });
+            res.push(SeqRes { order: order.clone(), outs, dump: fs.verif_dump(), partial });
             return;
         }
         for t in 0..prog.len() {
@@ -250,7 +261,11 @@ fn check_execution(init_idx: usize, sig: &[Op], prog: &Prog, e: &Execution, seq:
     // (b) linearizability against the code itself. A multi-entry call (copy, remove_all) that fails half way
     // leaves a partial result that depends on the hash order of the entry map, which differs between the
     // instances the sequential outcomes were computed on: such executions are held to (a) and (d) only
-    let partial = e.recs.iter().enumerate().any(|(t, r)| r.iter().enumerate().any(|(i, x)| !x.out.ok && crate::engines::space::order_sensitive(&sig[prog[t][i]])));
+    // (only calls that can fail *with* a partial result: in some sequential order the same call fails after it
+    // has changed the state; a call that fails without touching anything has nothing order-dependent to leave)
+    let partial = e.recs.iter().enumerate().any(|(t, r)| {
+        r.iter().enumerate().any(|(i, x)| !x.out.ok && crate::engines::space::order_sensitive(&sig[prog[t][i]]) && seq.iter().any(|q| q.partial.contains(&(t, i))))
+    });
     if partial {
         PARTIAL_SKIPPED.fetch_add(1, Ordering::Relaxed);
     }
